@@ -791,6 +791,13 @@ def m_str_decode(eng, recv, n, st):
 
 def m_str_split_tab(eng, recv, n, st):
     a = eng.ev(n.args[0], st) if n.args else None
+    for sep, fn in ((":", "split_colon"), ("-", "split_dash")):
+        if a is not None and z3.is_int_value(z3.simplify(a.t)) and z3.simplify(a.t).as_long() == str_code(sep):
+            v = Val(eng.uf(fn, [STR], LINE)(recv.t), LINE)
+            if "len-" + fn not in eng.global_axioms:
+                x_ = z3.FreshConst(z3.IntSort(), "spx")
+                eng.global_axioms["len-" + fn] = z3.ForAll([x_], LINE.len(eng.uf(fn, [STR], LINE)(x_)) >= 1)
+            return v
     if a is not None and z3.is_int_value(z3.simplify(a.t)) and z3.simplify(a.t).as_long() == str_code(" "):
         v = Val(eng.uf("words_of", [STR], LINE)(recv.t), LINE)
         st.assume(LINE.len(v.t) >= 1)
@@ -869,6 +876,8 @@ def aug_builder(eng, cur, s, st):
     t = cur
     for part in flatten_add(s.value):
         v = eng.ev(part, st)
+        if isinstance(v.ty, OptT) and isinstance(v.ty.inner, StrT):
+            v = eng.coerce(v, STR, st, s, "string operand")
         if isinstance(v.ty, StrT):
             t = Val(ty.mk(z3.Store(ty.arr(t.t), ty.len(t.t), v.t), ty.len(t.t) + 1), ty)
         elif v.ty == ty:
